@@ -14,7 +14,12 @@
  *   - a negative return of matrixSslReceivedData ends the session (and is a violation, because the
  *     network only drops, duplicates, delays and reorders);
  *   - spurious timeouts (timer fires although the peer's flight is still in flight / half delivered)
- *     are a separate, explicitly generated class ("T<step><C|S>" events).
+ *     are a separate, explicitly generated class ("T<step><C|S>" events);
+ *   - application discipline: by default data is written only when BOTH handshakes are complete; an 'eager writer' ("E<C|S>" option)
+ *     writes its first datagram the moment its OWN handshake is reported complete - for the sender of the final flight (server in a
+ *     full handshake, client in a resumed one) that is before the peer can have seen that flight. The eager datagram takes its fate
+ *     from the schedule like any other; it must be delivered exactly once if it arrives, undelayed, at a peer whose handshake is
+ *     complete and under the epoch that is current on the wire (otherwise RFC 6347 4.1 lets the receiver discard it: at most once).
  *
  * Schedule: one fate character per datagram in global send order:
  *   '.' deliver next round   'x' drop   'd' duplicate (two copies back to back)
@@ -38,8 +43,13 @@
  * captured; each is replayed at each of K positions of a fresh bidirectional exchange (alone, after the peer's Finished, twice, in
  * pairs), plus the sequence-gap family (g datagrams lost in a row, g = 1..40 around the 32-entry window, then replays around the jump).
  *
- * Case specs (also accepted by --case):
- *   S/<ver>/<suite>/<pmtu>/<kind>/<class>/<fates>/<spurious>
+ * Every schedule case re-seeds the entropy streams from a hash of its spec and the run's seed (option "N<k>" only varies that hash):
+ * ECDSA signature lengths vary between cases and repetitions of one schedule, and --case reproduces them.
+ *
+ * ECDHE-ECDSA cases also start from an empty ephemeral-key cache and (unless they resume by session id) an empty server session cache.
+ *
+ * Case specs (also accepted by --case; several specs separated by ';' are run in sequence in one process):
+ *   S/<ver>/<suite>/<pmtu>/<kind>/<class>/<fates>/<options: T<step><C|S> spurious timer, E<C|S> eager writer, N<k> entropy variation>
  *   R/<ver>/<suite>/<pmtu>/<kind>/<est>/<mode>/<rec>/<rec2>/<pos>      (gap-replay: <gap>/<variant*2+direction>/0)
  */
 #include "mx.h"
@@ -55,7 +65,7 @@ typedef struct { int ver; uint16_t suite; int pmtu; int kind; } cfg_t;
 #define CONN_TAG 0x0c16
 #define PAYLEN 48
 
-typedef struct { unsigned char *d; int n, dir, idx, due, copy, swap, late; } dg_t;
+typedef struct { unsigned char *d; int n, dir, idx, due, copy, swap, late, ser; } dg_t;   /* ser: serial + 1 of the application payload it carries, 0 = none */
 typedef struct { unsigned char *d; int n, dir, epoch, type, isdg, nrec; unsigned long long seq; } cap_t;
 
 typedef struct {
@@ -68,6 +78,8 @@ typedef struct {
     int complete[2];             /* handshake complete has been observed (must never revert) */
     unsigned char sent[2][MAXSER], lost[2][MAXSER], deliv[2][MAXSER];
     int failed, verbose, forceClean, dropAll;
+    int maxEpoch[2];             /* highest record epoch delivered so far, per direction */
+    int eager, eagerDone[2], curSer;   /* eager: bit 0 client, bit 1 server writes application data the moment its OWN handshake is complete */
     unsigned char lastdg[2048]; int lastn, lastdir;
     int capture; cap_t cap[256]; int ncap;
     int tComplete, rComplete;    /* timeout rounds / rounds until both complete */
@@ -127,7 +139,7 @@ static void capture_dg(int dir, const unsigned char *d, int n)
 static void net_add(const unsigned char *d, int n, int dir, int idx, int due, int copy, int swap, int late)
 {
     if (G.nnet >= MAXNET) { vf_incon("network queue overflow in %s", G.spec); G.failed = 1; return; }
-    dg_t *g = &G.net[G.nnet++]; g->d = malloc(n); memcpy(g->d, d, n); g->n = n; g->dir = dir; g->idx = idx; g->due = due; g->copy = copy; g->swap = swap; g->late = late;
+    dg_t *g = &G.net[G.nnet++]; g->d = malloc(n); memcpy(g->d, d, n); g->n = n; g->dir = dir; g->idx = idx; g->due = due; g->copy = copy; g->swap = swap; g->late = late; g->ser = G.curSer;
 }
 static void net_push(int dir, const unsigned char *d, int n)
 {
@@ -162,7 +174,9 @@ static int drain(mx_ep *e, const char *why)
         if (n < 0) { char cl[48]; snprintf(cl, sizeof cl, "resend-failed-%s-hs%d", e->role == MX_SERVER ? "server" : "client", e->ssl->hsState);
             e->dead = 1; e->lastrc = n; viol(cl, "%s: matrixDtlsGetOutdata returned %d when asked to retransmit (%s) at hsState %d, ssl->err %d; the session is unusable afterwards", e->name, n, why, e->ssl->hsState, e->ssl->err); G.failed = 1; break; }
         if (n == 0) break;
-        if (resend && cnt == 0) { G.retxFlights++; TRACE("    %s retransmits its flight (%s)\n", e->name, why); }
+        if (resend && cnt == 0) { G.retxFlights++; TRACE("    %s retransmits its flight (%s)\n", e->name, why);
+            /* measured, not assumed: how often a rebuilt flight carried an ECDSA signature whose length differs from the predicted one */
+            if (e->ssl->ecdsaSizeChange) vf_statf(1, "rebuilt_flights_with_unpredicted_ecdsa_size_%s", e->role == MX_SERVER ? "server" : "client"); }
         if (resend) G.retxDg++;
         if (n > matrixDtlsGetPmtu()) viol("datagram-exceeds-pmtu", "%s produced a %d byte datagram with PMTU %d", e->name, n, matrixDtlsGetPmtu());
         net_push(dir, ob, n); cnt++;
@@ -203,6 +217,22 @@ static int dg_feed(mx_ep *e, const unsigned char *d, int n)
     return mx_process_rc(e, rc, pt, ptl);
 }
 
+/* 'eager writer' discipline: the application of an endpoint writes its first datagram the moment its OWN handshake is reported
+ * complete (MATRIXSSL_HANDSHAKE_COMPLETE from matrixDtlsSentData for the sender of the final flight, from matrixSslReceivedData for
+ * its receiver), i.e. possibly before the peer has seen the final flight. */
+#define EAGER_SERIAL 40
+static void app_send(mx_ep *e, int serial);
+static void eager_write(mx_ep *e)
+{
+    int role = e->role == MX_SERVER;
+    if (!((G.eager >> role) & 1) || G.eagerDone[role] || !e->hsDone || e->dead || G.failed) return;
+    G.eagerDone[role] = 1; vf_stat("eager_writes", 1);
+    mx_ep *peer = role ? &G.C : &G.S;
+    if (!(role ? 1 : G.sExists) || !peer->hsDone) vf_stat("eager_writes_before_peer_complete", 1);
+    TRACE("  %s application writes at once (own handshake complete, peer complete: %d)\n", e->name, peer->ssl ? peer->hsDone : 0);
+    app_send(e, EAGER_SERIAL);
+}
+
 static void fire_timeout(mx_ep *e, const char *why)
 {
     if (e->dead || !e->ssl) return;
@@ -213,6 +243,7 @@ static void fire_timeout(mx_ep *e, const char *why)
     G.totT++; vf_stat("timeouts_fired", 1);
     drain(e, why);
     state_checks(e, before, "a timeout retransmission", 0);
+    eager_write(e);
 }
 
 static void deliver(dg_t *g)
@@ -224,6 +255,16 @@ static void deliver(dg_t *g)
     }
     if (e->dead || G.failed) return;
     int before = e->ssl->hsState, wasDone = e->hsDone;
+    /* an application datagram that reaches an endpoint whose handshake is not complete yet (eager writer, final flight lost or
+       overtaken) may be discarded (RFC 6347 4.1: "implementations MAY either buffer or discard"): no delivery obligation */
+    if (g->ser && !wasDone) { G.lost[g->dir][g->ser - 1] = 1; vf_stat("app_datagrams_arrived_before_completion", 1); }
+    /* ... and so may one written under an epoch that a retransmitted ChangeCipherSpec/Finished of its sender has superseded by the
+       time it arrives (judged from the wire alone: a datagram of a higher epoch of the same direction was delivered before it) */
+    { mx_rec r; int off = 0, first = 1, top = G.maxEpoch[g->dir];
+      while (mx_rec_at(g->d, g->n, off, 1, &r)) {
+          if (first && g->ser && r.epoch < G.maxEpoch[g->dir]) { G.lost[g->dir][g->ser - 1] = 1; vf_stat("app_datagrams_of_superseded_epoch", 1); }
+          first = 0; if (r.epoch > top) top = r.epoch; off += r.hdr + r.len; }
+      G.maxEpoch[g->dir] = top; }
     if (g->copy) G.dupDelivered++;
     if (g->late) G.roundsSinceInterf = 0, G.quietT = 0;
     int rc = dg_feed(e, g->d, g->n);
@@ -244,6 +285,8 @@ static void deliver(dg_t *g)
     if (e->closeReq) { char cl[48]; snprintf(cl, sizeof cl, "alert-sent-%s-%d", e->role == MX_SERVER ? "server" : "client", e->ssl->err);
         viol(cl, "%s answered datagram #%d%s with fatal alert %d and closed (hsState %d before); the network only dropped/duplicated/delayed/reordered", e->name, g->idx, g->copy ? " (duplicate copy)" : "", e->ssl->err, before); G.failed = 1; return; }
     state_checks(e, before, g->copy ? "a duplicated datagram" : "a datagram", g->copy);
+    eager_write(e);
+    if (G.failed) return;
     for (int i = 0; i < G.nsp; i++) if (!G.sp[i].fired && G.sp[i].step == G.step) {
         G.sp[i].fired = 1; G.roundsSinceInterf = 0; G.quietT = 0; vf_stat("spurious_timeouts_fired", 1);
         mx_ep *t = G.sp[i].ep ? &G.S : &G.C;
@@ -280,7 +323,9 @@ static void app_send(mx_ep *e, int serial)
     int rc = matrixSslEncodeToOutdata(e->ssl, p, PAYLEN);
     if (rc <= 0) { viol("app-send-failed-after-handshake", "%s: matrixSslEncodeToOutdata returned %d for a %d byte payload after the handshake completed", e->name, rc, PAYLEN); G.failed = 1; return; }
     TRACE("  %s sends application datagram serial %d\n", e->name, serial);
+    G.curSer = serial + 1;
     int n = drain(e, "application data");
+    G.curSer = 0;
     if (n != 1 && !G.failed) viol("app-send-failed-after-handshake", "%s: one application payload produced %d datagrams", e->name, n);
 }
 
@@ -301,8 +346,10 @@ static void sim_init(const cfg_t *c, const char *cls, const char *fates, const c
     G.mc = (mx_cfg) { .ver = c->ver, .suite = c->suite, .clientAuth = c->kind == K_CAUTH, .useTicket = c->kind == K_TKFULL || c->kind == K_TKRES };
     snprintf(G.spec, sizeof G.spec, "S/%s/%04x/%d/%s/%s/%s/%s", mx_vername[c->ver], c->suite, c->pmtu, kindname[c->kind], cls, fates, spur ? spur : "");
     snprintf(G.keytail, sizeof G.keytail, "%s:%s:%s:%s", mx_vername[c->ver], famname(c->suite), kindname[c->kind], cls);
+    /* options field: T<step><C|S> spurious timer expiry, E<C|S> eager writer on that side, N<k> entropy variation (only hashed) */
     for (const char *p = spur; p && *p; ) {
         if (*p == 'T' && G.nsp < 8) { char *end; G.sp[G.nsp].step = (int) strtol(p + 1, &end, 10); G.sp[G.nsp].ep = *end == 'S'; G.nsp++; p = *end ? end + 1 : end; }
+        else if (*p == 'E' && (p[1] == 'C' || p[1] == 'S')) { G.eager |= p[1] == 'S' ? 2 : 1; p += 2; }
         else p++;
     }
     G.sid = sid;
@@ -401,16 +448,33 @@ static void sched_signature(char *out, size_t cap)
     snprintf(out, cap, "%.*s", n, G.fates);
 }
 
+/* The ECDHE key pair cached in a key set (matrixSslGenEphemeralEcKey) outlives sessions: forget it, so that the case generates its own
+ * from its own entropy and the signed ServerKeyExchange (hence the signature and its length) does not depend on what ran before */
+static void forget_ephemeral(sslKeys_t *k)
+{
+    if (k && k->cache.eccPrivKeyUse) { psEccClearKey(&k->cache.eccPrivKey); k->cache.eccPrivKey.curve = NULL; k->cache.eccPrivKeyUse = 0; }
+}
 static void run_schedule_case(const cfg_t *c, const char *cls, const char *fates, const char *spur, sslSessionId_t *sid)
 {
     sim_init(c, cls, fates, spur, sid);
     TRACE("CASE %s\n", G.spec);
+    /* the entropy of a case is a function of its spec and the run's seed: a replay (--case) draws the same ECDSA nonces, and
+       repetitions of one schedule (option N<k>) see different signature lengths */
+    mx_entropy_seed(vf_hash(G.spec, strlen(G.spec)) ^ (vf_seed * 0x9e3779b97f4a7c15ULL));
+    if (mx_suite_by_id(c->suite)->auth == MX_AUTH_ECDSA) {
+        forget_ephemeral(mx_pick_skeys(&G.mc)); forget_ephemeral(mx_pick_ckeys(&G.mc));
+        /* the session id in ServerHello is the cache slot number + server random, and CertificateVerify signs the transcript: start
+           from an empty server cache (not for session-id resumption, which needs the entry made by the set-up handshake and signs nothing) */
+        if (c->kind != K_RESUMED && c->kind != K_TKRES) { mx_actor = 7;   /* matrixSslOpen draws entropy: from a stream of its own */
+            matrixSslClose(); if (matrixSslOpen() < 0) { vf_incon("matrixSslOpen failed"); return; } }
+    }
     int ok = sim_handshake();
     if (ok) {
         sim_data(4, 0);
         /* the reference server keeps timing out connected clients; must be harmless */
         if (!G.failed) { fire_timeout(&G.S, "post-handshake server timer"); sim_settle(12); }
         sim_final_checks(0, 8, "in the data phase");
+        sim_final_checks(EAGER_SERIAL, EAGER_SERIAL + 1, "by an eager writer");
         sim_clean_exchange(100, "after the handshake");
         sim_final_checks(100, 102, "in the clean exchange");
         vf_statmax("max_timeout_rounds_to_completion", G.tComplete);
@@ -474,7 +538,7 @@ static void cfg_prepare_body(cfgstate_t *cs)
 static void cfg_activate(cfgstate_t *cs) { memcpy(g_rank, cs->rank, sizeof g_rank); g_record_rank = 0; matrixDtlsSetPmtu(cs->c.pmtu); }
 
 /* ---- batched fork execution of schedule cases ---- */
-typedef struct { char cls[24]; char fates[72]; char spur[48]; } scase_t;
+typedef struct { char cls[32]; char fates[72]; char spur[48]; } scase_t;
 #define BATCH_MAX 64
 static struct { cfgstate_t *cs; scase_t k[BATCH_MAX]; int n; int only; } B;
 static long g_batchno;
@@ -513,6 +577,11 @@ static void batch_flush(void)
         if (B.cs->usable) {
             cfg_activate(B.cs);
             char spec[600]; cfg_t *c = &B.cs->c;
+            /* "$<d><tail>": <tail> starts at the d-th last datagram of this configuration's clean handshake */
+            for (int i = 0; i < B.n; i++) if (B.k[i].fates[0] == '$') {
+                char t[72]; int lead = B.cs->ndg - (B.k[i].fates[1] - '0'); if (lead < 0) lead = 0; if (lead > 40) lead = 40;
+                memset(t, '.', lead); snprintf(t + lead, sizeof t - lead, "%s", B.k[i].fates + 2); memcpy(B.k[i].fates, t, sizeof t);
+            }
             B.only = -1;
             /* --case: run in-process so that a sanitizer report reaches the shard's stderr and is keyed by the driver */
             if (vf_case) { for (int i = 0; i < B.n; i++) { B.only = i; batch_child(NULL); } B.n = 0; return; }
@@ -528,44 +597,78 @@ static void batch_flush(void)
 }
 static int g_batchsize = 16;
 static long g_nsamples;
+/* options that gen_schedules adds to every case it generates: eager writers (bit 0 client, bit 1 server; the class gets the prefix
+ * "eager-") and an entropy variation number */
+static int g_eager, g_rep;
 static void add_case(cfgstate_t *cs, const char *cls, const char *fates, const char *spur)
 {
     if (B.n && (B.cs != cs || B.n >= g_batchsize)) batch_flush();
     B.cs = cs; scase_t *k = &B.k[B.n++];
-    snprintf(k->cls, sizeof k->cls, "%s", cls); snprintf(k->fates, sizeof k->fates, "%s", fates); snprintf(k->spur, sizeof k->spur, "%s", spur ? spur : "");
+    char rep[12] = ""; if (g_rep) snprintf(rep, sizeof rep, "N%d,", g_rep);
+    if (vf_case) { snprintf(k->cls, sizeof k->cls, "%s", cls); snprintf(k->spur, sizeof k->spur, "%s", spur ? spur : ""); }
+    else {
+        snprintf(k->cls, sizeof k->cls, "%s%s", g_eager ? "eager-" : "", cls);
+        snprintf(k->spur, sizeof k->spur, "%s%s%s%s", g_eager & 1 ? "EC," : "", g_eager & 2 ? "ES," : "", rep, spur ? spur : "");
+        int l = (int) strlen(k->spur); if (l && k->spur[l - 1] == ',') k->spur[l - 1] = 0;
+    }
+    snprintf(k->fates, sizeof k->fates, "%s", fates);
+    cls = k->cls; spur = k->spur;
     if (vf_shard == 0 && (g_nsamples++ % 1777) == 400) vf_sample("%s %04x pmtu %d %s %s schedule \"%s\" %s", mx_vername[cs->c.ver], cs->c.suite, cs->c.pmtu, kindname[cs->c.kind], cls, fates, spur ? spur : "");
 }
 
 static int g_L = 16, g_delays = 3, g_spsteps = 16;
-static void gen_schedules(cfgstate_t *cs, int m, int nrandom, int spurious_depth, vf_rng *g)
+/* eager-writer plan of gen_schedules: modes (bit k set = run with eager mode k, 1 = client, 2 = server, 3 = both) for which all drop
+ * patterns over the first g_eager_m datagrams are repeated, and whether the single-position and spurious-timeout classes are repeated
+ * with both sides eager */
+static int g_eager_drop_modes, g_eager_m, g_eager_singles;
+static void gen_drop_patterns(cfgstate_t *cs, int m)
 {
     char f[72];
-    const mx_suite_t *su = mx_suite_by_id(cs->c.suite);
-    g_batchsize = su->auth == MX_AUTH_PSK ? 32 : 8;
-    /* all 2^m drop patterns over the first m datagrams (pattern 0 = clean run) */
     for (long p = 0; p < (1L << m); p++) { for (int i = 0; i < m; i++) f[i] = (p >> i) & 1 ? 'x' : '.'; f[m] = 0; add_case(cs, "drop-pattern", f, ""); }
-    /* single duplicate / late duplicate / swap / delay at every position of the clean handshake and two beyond (application data) */
-    int L = g_L;  /* clean handshakes send 5..20 datagrams; positions beyond hit the data phase */
+}
+static void gen_singles(cfgstate_t *cs, int L, int delays)
+{
+    char f[72];
     for (int i = 0; i < L; i++) {
         memset(f, '.', i); f[i + 1] = 0;
         f[i] = 'd'; add_case(cs, "single-duplicate", f, "");
         f[i] = 'D'; add_case(cs, "single-duplicate", f, "");
         f[i] = 's'; add_case(cs, "single-swap", f, "");
         f[i] = 'R'; add_case(cs, "single-duplicate", f, "");
-        for (int k = 1; k <= 3; k++) { if (g_delays == 1 && k != 2) continue; f[i] = '0' + k; add_case(cs, "single-delay", f, ""); }
+        for (int k = 1; k <= 3; k++) { if (delays == 1 && k != 2) continue; f[i] = '0' + k; add_case(cs, "single-delay", f, ""); }
     }
-    /* random schedules over the first 28 datagrams */
+}
+static void gen_spurious1(cfgstate_t *cs, int steps)
+{
+    for (int st = 1; st <= steps; st++) for (int ep = 0; ep < 2; ep++) { char sp[48]; snprintf(sp, sizeof sp, "T%d%c", st, ep ? 'S' : 'C'); add_case(cs, "spurious-timeout", "", sp); }
+}
+static void gen_schedules(cfgstate_t *cs, int m, int nrandom, int spurious_depth, vf_rng *g)
+{
+    char f[72];
+    const mx_suite_t *su = mx_suite_by_id(cs->c.suite);
+    g_batchsize = su->auth == MX_AUTH_PSK ? 32 : 8;
+    g_eager = 0; g_rep = 0;
+    /* all 2^m drop patterns over the first m datagrams (pattern 0 = clean run) */
+    gen_drop_patterns(cs, m);
+    for (int mode = 1; mode <= 3; mode++) if ((g_eager_drop_modes >> mode) & 1) { g_eager = mode; gen_drop_patterns(cs, g_eager_m < m ? g_eager_m : m); }
+    g_eager = 0;
+    /* single duplicate / late duplicate / swap / delay at every position of the clean handshake and two beyond (application data) */
+    /* clean handshakes send 5..20 datagrams; positions beyond hit the data phase */
+    gen_singles(cs, g_L, g_delays);
+    if (g_eager_singles) { g_eager = 3; gen_singles(cs, g_L, g_delays); g_eager = 0; }
+    /* random schedules over the first 28 datagrams, with a random eager-writer mode (none / client / server / both) */
     for (int r = 0; r < nrandom; r++) {
         int len = 6 + vf_below(g, 23), heavy = vf_below(g, 3);
         for (int i = 0; i < len; i++) {
             unsigned x = vf_below(g, 100); unsigned pd = heavy == 2 ? 35 : heavy == 1 ? 20 : 8;
             f[i] = x < pd ? 'x' : x < pd + 10 ? 'd' : x < pd + 13 ? 'D' : x < pd + 16 ? 'R' : x < pd + 26 ? (char) ('1' + vf_below(g, 4)) : x < pd + 34 ? 's' : '.';
         }
-        f[len] = 0; add_case(cs, "random", f, "");
+        f[len] = 0; g_eager = (int) vf_below(g, 4); add_case(cs, "random", f, ""); g_eager = 0;
     }
     /* spurious timeouts: after every delivery step of the clean handshake, on either endpoint */
     if (spurious_depth >= 1) {
-        for (int st = 1; st <= g_spsteps; st++) for (int ep = 0; ep < 2; ep++) { char sp[48]; snprintf(sp, sizeof sp, "T%d%c", st, ep ? 'S' : 'C'); add_case(cs, "spurious-timeout", "", sp); }
+        gen_spurious1(cs, g_spsteps);
+        if (g_eager_singles) { g_eager = 3; gen_spurious1(cs, g_spsteps); g_eager = 0; }
     }
     if (spurious_depth >= 2) {
         for (int st = 1; st <= 12; st++) for (int s2 = st; s2 <= 12; s2++) for (int e = 0; e < 4; e++) {
@@ -576,6 +679,45 @@ static void gen_schedules(cfgstate_t *cs, int m, int nrandom, int spurious_depth
             char sp[48]; snprintf(sp, sizeof sp, "T%d%c", st, ep ? 'S' : 'C'); memset(f, '.', d); f[d] = 'x'; f[d + 1] = 0; add_case(cs, "spurious-timeout", f, sp);
         }
     }
+    batch_flush();
+}
+/* Loss of the final handshake flight ("$1x": the last datagram of the configuration's clean handshake is dropped; the datagram right
+ * behind it is the eager application datagram of its sender) followed by drop patterns over the next datagrams (the eager datagram,
+ * the peer's retransmission, the rebuilt final flight ...), without eager writers, with the sender of the final flight eager
+ * (server in full / client-auth / ticket-full handshakes, client in resumed ones), with its peer eager, with both. */
+static void gen_final_flight(cfgstate_t *cs, int thorough)
+{
+    const mx_suite_t *su = mx_suite_by_id(cs->c.suite);
+    int last = (cs->c.kind == K_RESUMED || cs->c.kind == K_TKRES) ? 1 : 2;
+    char f[72];
+    g_batchsize = su->auth == MX_AUTH_PSK ? 32 : 8; g_rep = 0;
+    if (!thorough) {
+        int psk = su->auth == MX_AUTH_PSK;
+        static const char *tails[] = { "x", "xx", "x.x", "x..x" };
+        g_eager = 0; add_case(cs, "final-flight-loss", "$1x", "");
+        for (int mode = 0; mode < 2; mode++) for (int t = 0; t < 4; t++) {
+            if (!psk && !(mode ? t == 0 || t == 2 : t == 1)) continue;     /* certificate suites: three of the eight */
+            g_eager = mode ? 3 : last; snprintf(f, sizeof f, "$1%s", tails[t]); add_case(cs, "final-flight-loss", f, "");
+        }
+    } else {
+        for (int mode = 0; mode <= 3; mode++) {
+            g_eager = mode;
+            for (int p = 0; p < 32; p++) { snprintf(f, sizeof f, "$1x....."); for (int i = 0; i < 5; i++) if ((p >> i) & 1) f[3 + i] = 'x'; add_case(cs, "final-flight-loss", f, ""); }
+            for (int p = 0; p < 8; p++) { snprintf(f, sizeof f, "$2xx..."); for (int i = 0; i < 3; i++) if ((p >> i) & 1) f[4 + i] = 'x'; add_case(cs, "final-flight-loss", f, ""); }
+        }
+    }
+    g_eager = 0;
+    batch_flush();
+}
+/* Every single datagram of the handshake lost alone, R times under different entropy (option N<k>): ECDSA signatures vary in length
+ * from handshake to handshake, and a flight that carries one (ServerKeyExchange, CertificateVerify) has to be REBUILT around the
+ * cached signature when it is retransmitted. */
+static void gen_single_drops(cfgstate_t *cs, int L, int R)
+{
+    char f[72];
+    g_batchsize = 8; g_eager = 0;
+    for (int r = 1; r <= R; r++) { g_rep = r; for (int i = 0; i < L; i++) { memset(f, '.', i); f[i] = 'x'; f[i + 1] = 0; add_case(cs, "single-drop", f, ""); } }
+    g_rep = 0;
     batch_flush();
 }
 
@@ -772,7 +914,7 @@ int main(int argc, char **argv)
 {
     vf_init(argc, argv); mx_global_init(); mx_keys_load();
     vf_maxsamples = 10;
-    if (vf_case) { setvbuf(stdout, NULL, _IONBF, 0); int rc = run_case_spec(vf_case); sim_free(); for (int i = 0; i < nCS; i++) if (CS[i].sid) matrixSslDeleteSessionId(CS[i].sid); mx_keys_free(); matrixSslClose(); vf_flush(); return rc; }
+    if (vf_case) { setvbuf(stdout, NULL, _IONBF, 0); int rc = 0; { char *all = strdup(vf_case), *sv = NULL; for (char *one = strtok_r(all, ";", &sv); one; one = strtok_r(NULL, ";", &sv)) rc = run_case_spec(one); free(all); } sim_free(); for (int i = 0; i < nCS; i++) if (CS[i].sid) matrixSslDeleteSessionId(CS[i].sid); mx_keys_free(); matrixSslClose(); vf_flush(); return rc; }
 
     static const int pmtus[] = { 1500, 600, 400 };   /* 256 cannot carry a 2048-bit RSA ClientKeyExchange / signature in one datagram */
     int T = vf_thorough;
@@ -783,36 +925,60 @@ int main(int argc, char **argv)
     /* --- PSK bulk: exhaustive drop patterns --- */
     static const struct { uint16_t suite; int ver; } psk[] = { { 0x008c, MX_DTLS10 }, { 0x008c, MX_DTLS12 }, { 0x00ae, MX_DTLS12 } };
     g_L = T ? 16 : 12; g_delays = 3; g_spsteps = T ? 16 : 10;
+    /* eager writers: all drop patterns again with the client / the server / both writing at their own completion (the final flight is
+       datagram 5 of a PSK handshake, 3 of a resumed one), single positions and spurious timers again with both sides eager */
+    g_eager_drop_modes = T ? 0xe : 0x8; g_eager_m = T ? 10 : 7; g_eager_singles = 1;
     for (int i = 0; i < 3; i++) for (int kind = K_FULL; kind <= K_RESUMED; kind++) {
         mx_entropy_seed(vf_seed * 31 + ci++);
         int m = T ? 12 : (i == 2 ? 6 : 8);
-        gen_schedules(cfg_get(psk[i].ver, psk[i].suite, 1500, kind), m, T ? 3000 : 24, T ? 2 : 1, &g);
+        cfgstate_t *cs = cfg_get(psk[i].ver, psk[i].suite, 1500, kind);
+        gen_schedules(cs, m, T ? 3000 : 24, T ? 2 : 1, &g);
+        gen_final_flight(cs, T);
     }
-    for (int kind = K_FULL; kind <= K_RESUMED; kind++) { mx_entropy_seed(vf_seed * 31 + ci++); gen_schedules(cfg_get(MX_DTLS12, 0x00ae, 256, kind), T ? 10 : 5, T ? 500 : 8, 1, &g); }
+    for (int kind = K_FULL; kind <= K_RESUMED; kind++) { mx_entropy_seed(vf_seed * 31 + ci++); cfgstate_t *cs = cfg_get(MX_DTLS12, 0x00ae, 256, kind); gen_schedules(cs, T ? 10 : 6, T ? 500 : 8, 1, &g); gen_final_flight(cs, T); }
     /* --- certificate suites: RSA key transport and ECDHE-RSA, CBC and GCM, all PMTUs, three handshake kinds --- */
-    static const struct { uint16_t suite; int ver; } cert[] = { { 0x002f, MX_DTLS10 }, { 0x002f, MX_DTLS12 }, { 0x009c, MX_DTLS12 }, { 0xc013, MX_DTLS10 }, { 0xc013, MX_DTLS12 }, { 0xc02f, MX_DTLS12 } };
-    for (int i = 0; i < 6; i++) for (int pi = 0; pi < 3; pi++) for (int kind = 0; kind <= K_CAUTH; kind++) {
-        int ecdhe = cert[i].suite >= 0xc000;
+    /* ... and ECDHE-ECDSA (server identity and, with client-auth, client identity from the sample P-256 keys): the DER length of an
+       ECDSA signature varies from handshake to handshake, which matters when ServerKeyExchange / CertificateVerify flights are rebuilt */
+    static const struct { uint16_t suite; int ver; int quick; } cert[] = { { 0x002f, MX_DTLS10, 1 }, { 0x002f, MX_DTLS12, 1 }, { 0x009c, MX_DTLS12, 1 }, { 0xc013, MX_DTLS10, 1 }, { 0xc013, MX_DTLS12, 1 }, { 0xc02f, MX_DTLS12, 1 },
+        { 0xc009, MX_DTLS10, 1 }, { 0xc009, MX_DTLS12, 2 }, { 0xc02b, MX_DTLS12, 1 }, { 0xc023, MX_DTLS12, 0 }, { 0xc02c, MX_DTLS12, 0 } };
+    for (int i = 0; i < (int) (sizeof cert / sizeof cert[0]); i++) for (int pi = 0; pi < 3; pi++) for (int kind = 0; kind <= K_CAUTH; kind++) {
+        int ecdhe = cert[i].suite >= 0xc000, ecdsa = mx_suite_by_id(cert[i].suite)->auth == MX_AUTH_ECDSA;
         mx_entropy_seed(vf_seed * 31 + ci++);
+        cfgstate_t *cs;
         if (!T) {
-            /* quick: every (suite, version) x pmtu x kind, but small exhaustive depth; ECDHE only at two PMTUs */
-            if (ecdhe && pi == 1) continue;
+            /* quick: every (suite, version) x pmtu x kind, but small exhaustive depth; ECDHE only at two PMTUs. ECDSA: the general classes
+               at PMTU 1500 for one CBC (DTLS 1.0) and one GCM (DTLS 1.2) suite; elsewhere (PMTU 400, CBC at DTLS 1.2) only the classes aimed
+               at rebuilt flights, and no resumption (a resumed handshake carries no signature) */
+            if (!cert[i].quick || (ecdhe && pi == 1)) continue;
+            int general = !ecdsa || (pi == 0 && cert[i].quick == 1);
+            if (!general && (kind == K_RESUMED || (cert[i].quick == 2 && pi != 0))) continue;
             int m = ecdhe ? 3 : (pi == 0 ? 5 : 3);
             g_L = pi == 0 ? 8 : 12; g_delays = 1; g_spsteps = pi == 0 ? 8 : 12;
-            gen_schedules(cfg_get(cert[i].ver, cert[i].suite, pmtus[pi], kind), m, ecdhe ? 3 : 5, 1, &g);
+            g_eager_drop_modes = 0; g_eager_singles = 0;
+            cs = cfg_get(cert[i].ver, cert[i].suite, pmtus[pi], kind);
+            if (general) gen_schedules(cs, m, ecdhe ? 3 : 5, 1, &g);
+            if (ecdsa && kind != K_RESUMED) gen_single_drops(cs, pi == 0 ? 8 : 10, general ? 3 : 2);
         } else {
             int m = ecdhe ? 8 : 10;
             g_L = pi == 0 ? 12 : 24; g_delays = 3; g_spsteps = pi == 0 ? 12 : 24;
-            gen_schedules(cfg_get(cert[i].ver, cert[i].suite, pmtus[pi], kind), m, ecdhe ? 300 : 600, pi == 0 || pi == 2 ? 2 : 1, &g);
+            g_eager_drop_modes = 0x8; g_eager_m = m - 2; g_eager_singles = 1;
+            cs = cfg_get(cert[i].ver, cert[i].suite, pmtus[pi], kind);
+            gen_schedules(cs, m, ecdhe ? 300 : 600, pi == 0 || pi == 2 ? 2 : 1, &g);
+            if (ecdsa && kind != K_RESUMED) gen_single_drops(cs, pi == 0 ? 10 : 16, 12);
         }
+        gen_final_flight(cs, T);
     }
     /* --- RFC 5077 tickets: the server's last flight carries NewSessionTicket; a resumed handshake presents the ticket in ClientHello --- */
     g_L = T ? 16 : 12; g_delays = T ? 3 : 1; g_spsteps = T ? 16 : 10;
     for (int kind = K_TKFULL; kind <= K_TKRES; kind++) {
-        mx_entropy_seed(vf_seed * 31 + ci++); gen_schedules(cfg_get(MX_DTLS12, 0x00ae, 1500, kind), T ? 10 : 6, T ? 600 : 12, 1, &g);
-        mx_entropy_seed(vf_seed * 31 + ci++); gen_schedules(cfg_get(MX_DTLS10, 0x002f, 1500, kind), T ? 8 : 4, T ? 300 : 6, 1, &g);
-        if (T) { mx_entropy_seed(vf_seed * 31 + ci++); gen_schedules(cfg_get(MX_DTLS12, 0xc02f, 400, kind), 6, 200, 1, &g);   /* certificate suites need PMTU >= 400: only Certificate is fragmented (PS_MIN_PMTU comment in dtls.c) */ }
+        cfgstate_t *cs;
+        g_eager_drop_modes = 0xe; g_eager_m = T ? 8 : 6; g_eager_singles = T;
+        mx_entropy_seed(vf_seed * 31 + ci++); gen_schedules(cs = cfg_get(MX_DTLS12, 0x00ae, 1500, kind), T ? 10 : 6, T ? 600 : 12, 1, &g); gen_final_flight(cs, T);
+        g_eager_drop_modes = T ? 0x8 : 0; g_eager_m = 6; g_eager_singles = 0;
+        mx_entropy_seed(vf_seed * 31 + ci++); gen_schedules(cs = cfg_get(MX_DTLS10, 0x002f, 1500, kind), T ? 8 : 4, T ? 300 : 6, 1, &g); gen_final_flight(cs, T);
+        if (T) { mx_entropy_seed(vf_seed * 31 + ci++); gen_schedules(cs = cfg_get(MX_DTLS12, 0xc02f, 400, kind), 6, 200, 1, &g); gen_final_flight(cs, T);   /* certificate suites need PMTU >= 400: only Certificate is fragmented (PS_MIN_PMTU comment in dtls.c) */ }
     }
+    g_eager_drop_modes = 0; g_eager_singles = 0;
     batch_flush();
 
     /* --- replay phase --- */
@@ -826,6 +992,8 @@ int main(int argc, char **argv)
             if (!(isPsk || (cs->c.suite == 0x009c && cs->c.pmtu != 600) || (cs->c.suite == 0x002f && cs->c.ver == MX_DTLS10 && cs->c.pmtu == 1500) || (cs->c.suite == 0xc02f && cs->c.pmtu == 1500 && cs->c.kind == K_FULL))) continue;
             if (cs->c.suite == 0x00ae) continue;
         } else if (ecdhe && cs->c.pmtu == 600) continue;
+        /* the record layer of the ECDHE-ECDSA suites is that of their ECDHE-RSA twins: one CBC and one GCM representative in the replay phase */
+        else if (su->auth == MX_AUTH_ECDSA && !((cs->c.suite == 0xc009 && cs->c.ver == MX_DTLS10) || cs->c.suite == 0xc02b)) continue;
         for (int est = 0; est < NEST; est++) {
             if (!T && !isPsk && est >= 2 && cs->c.kind != K_FULL) continue;
             mx_entropy_seed(vf_seed * 131 + i * 3 + est);
